@@ -20,7 +20,7 @@ class C04(Property):
                          "reader_lines_lf_free", "parser_calls_keep_decoded_inv", "decoded_inv", "decoded_metadata_colours_representable", "decoded_map_inv",
                          "decoded_records_representable", "decoded_records_representable_of_limitRep", "record_lines_accepted_decoded",
                          "record_lines_accepted_decoded_metadata_colours", "record_blocks_accepted_decoded", "record_blocks_accepted_and_recovered_decoded",
-                         "f16_decoded_witness", "decoded_hypotheses_satisfiable", "decodedSample_decodes", "decodedSample_finishes", "decodedSample_floatsRep",
+                         "f16_decoded_witness", "constFacts_of_check", "decoded_hypotheses_satisfiable", "decodedSample_decodes", "decodedSample_finishes", "decodedSample_floatsRep",
                          "decodedSample_noDoubleSlash", "decodedSample_encodes"]
     partial_theorems = {
         "record_lines_accepted_editor / _difficulty / _general / _events, record_blocks_accepted_and_recovered":
@@ -40,7 +40,8 @@ class C04(Property):
             "the background has no comma and no outer quote; colour components ≤ 255 with alpha 255; custom colour names are their own trim, without `:`, line feed, `//` (parse_colors strips "
             "comments before splitting — contrary to the expectation that `x//y` could be a decoded name) or leading `Combo`, pairwise distinct. NO codec law is used (so this also holds "
             "of the IEEE instance); the only hypothesis is ConstFacts — closed facts about the decoder's own constants (1, 1.4, 5, 0.7, 0.4, 3.6, 0.5, 8 are within the parse limit, `<` is "
-            "irreflexive on the clamp bounds and lo < hi is not reversed, 0 = i32-as-f64 0): true of IEEE floats by evaluation but not provable in the kernel (Lean's Float is opaque); "
+            "irreflexive on the clamp bounds and lo < hi is not reversed, 0 = i32-as-f64 0): true of IEEE floats by evaluation but not provable in the kernel (Lean's Float is opaque): the boolean form constFactsB is "
+            "evaluated to true on the driver's Float/Float32 instances by `#guard` when Props/C04Decoded.lean is built (a test, not a proof; constFacts_of_check links it to ConstFacts); "
             "instance on the toy scalar by `decide`. decoded_metadata_colours_representable needs no hypothesis at all",
         "decoded_records_representable / record_lines_accepted_decoded / record_blocks_accepted_decoded / record_blocks_accepted_and_recovered_decoded":
             "every clause of every Rep* predicate is either derived from DecInv or isolated as a residual hypothesis: (a) FloatsRep — the codec represents the map's (finite, in-limit) float "
